@@ -347,6 +347,25 @@ def val_family(seed, n, maxlen=3, budget=8000):
     return out
 
 
+def flagguard_family(seed, n, maxlen=2, budget=1500):
+    """a switch (possibly environment-backed) carrying a validation that refuses it, next to an argument or a
+    positional consumed before or after it (C06/C18: present means present; C20: the message names the same item)"""
+    rnd = random.Random(seed)
+    out = []
+    while len(out) < n:
+        i = len(out)
+        g = sw("g0", "--turbo", env=("BPAF_VERIF_V0" if i % 2 == 0 else ""))
+        g["gflag"] = True
+        other = [ar("o1", "one", "str", "-n"), ar("o1", "opt", "int", "-n"), sw("o1", "-n")][i % 3]
+        named = [other, g] if (i // 2) % 2 == 0 else [g, other]
+        tail = [NOTAIL, postail(pos("p0", "one")), postail(pos("p0", "opt"))][(i // 3) % 3]
+        d = mkdef(f"fg{seed}_{i}", level(named, tail), maxlen=maxlen, extras=("unk",), spells=("sep",),
+                  words=("1", "x"), envvals=("UNSET", "1"))
+        trim_to_budget(d, budget)
+        out.append(d)
+    return out
+
+
 def catch_family(seed, n, maxlen=2, budget=1500):
     """optional/many/some arguments with `catch` (C06: the one documented exception): typed and environment values"""
     rnd = random.Random(seed)
